@@ -176,7 +176,7 @@ macro_rules! st2 {
 
 macro_rules! inst1 {
     ($name:ident, $d:ident, $dq:ident, $s:ident, $t:ty) => {
-        pub fn $name(variant: u8) -> Rec {
+        pub fn $name(variant: u8) -> Option<Rec> {
             let nd = nd_of(stringify!($d), false);
             let shape = data_shape(nd, false, variant);
             let data = mk_data::<$t>(&shape, variant).into_dimensionality::<$d>().expect("data rank");
@@ -184,7 +184,7 @@ macro_rules! inst1 {
             let qv = query_vals::<$t>(stringify!($dq), (shape[0] - 1) as f64, 0, variant);
             let qs = query_shape(stringify!($dq), qv.len());
             let q = stored::<$t, $dq>(&qs, &qv, variant);
-            let ip = Interp1DBuilder::new(st!($s, data)).x(st!($s, x)).build().expect("valid build");
+            let Ok(ip) = Interp1DBuilder::new(st!($s, data)).x(st!($s, x)).build() else { return None };
             let qa = st!($s, q);
             verif_hooks::reset_counters();
             let batch = catch(|| ip.interp_array(&qa));
@@ -214,7 +214,7 @@ macro_rules! inst1 {
             gshape.extend_from_slice(&shape[1..]);
             let mut gbuf = ArrayD::from_elem(IxDyn(&gshape), el::<$t>(0.0));
             let general_into = catch(|| ip.interp_array_into(&qd, gbuf.view_mut())).and_then(|r| r.map(|_| to_bits(&gbuf)).map_err(|e| e.to_string()));
-            Rec {
+            Some(Rec {
                 casts,
                 casts_into,
                 shape: batch.as_ref().ok().and_then(|r| r.as_ref().ok()).map(|a| a.shape().to_vec()).unwrap_or_default(),
@@ -223,14 +223,14 @@ macro_rules! inst1 {
                 singles,
                 general,
                 general_into,
-            }
+            })
         }
     };
 }
 
 macro_rules! inst2 {
     ($name:ident, $d:ident, $dq:ident, $s:ident, $t:ty) => {
-        pub fn $name(variant: u8) -> Rec {
+        pub fn $name(variant: u8) -> Option<Rec> {
             let nd = nd_of(stringify!($d), true);
             let shape = data_shape(nd, true, variant);
             let data = mk_data::<$t>(&shape, variant).into_dimensionality::<$d>().expect("data rank");
@@ -241,7 +241,7 @@ macro_rules! inst2 {
             let qs = query_shape(stringify!($dq), qxv.len());
             let qx = stored::<$t, $dq>(&qs, &qxv, variant);
             let qy = stored::<$t, $dq>(&qs, &qyv, variant);
-            let ip = Interp2DBuilder::new(st!($s, data)).x(st!($s, x)).y(st2!($s, y)).build().expect("valid build");
+            let Ok(ip) = Interp2DBuilder::new(st!($s, data)).x(st!($s, x)).y(st2!($s, y)).build() else { return None };
             let (qxa, qya) = (st!($s, qx), st2!($s, qy));
             verif_hooks::reset_counters();
             let batch = catch(|| ip.interp_array(&qxa, &qya));
@@ -271,7 +271,7 @@ macro_rules! inst2 {
             gshape.extend_from_slice(&shape[2..]);
             let mut gbuf = ArrayD::from_elem(IxDyn(&gshape), el::<$t>(0.0));
             let general_into = catch(|| ip.interp_array_into(&qxd, &qyd, gbuf.view_mut())).and_then(|r| r.map(|_| to_bits(&gbuf)).map_err(|e| e.to_string()));
-            Rec {
+            Some(Rec {
                 casts,
                 casts_into,
                 shape: batch.as_ref().ok().and_then(|r| r.as_ref().ok()).map(|a| a.shape().to_vec()).unwrap_or_default(),
@@ -280,7 +280,7 @@ macro_rules! inst2 {
                 singles,
                 general,
                 general_into,
-            }
+            })
         }
     };
 }
@@ -342,7 +342,11 @@ fn body(ctx: &Ctx) -> (Summary, Meta) {
         }
         let name = format!("{name0}{}", ["", ":one-element-out-of-range", ":zero-lane-data+out-of-range", ":signed-zeros", ":one-element-just-above-the-range", ":buffer-one-row-too-long+out-of-range", ":query-stored-back-to-front+two-out-of-range"][variant as usize]);
         let name = name.as_str();
-        let r = f(variant);
+        // (a valid build that fails is C10's finding, not this property's)
+        let Some(r) = f(variant) else {
+            out.count("skipped:build_of_valid_input_failed", 1);
+            continue;
+        };
         out.evals += 1;
         out.states += 1;
         out.transitions += 4;
